@@ -238,3 +238,14 @@ Definition facet_admissible (vs : list pt) (cen : pt) (f : list nat) : Prop :=
     nth_error vs i1 = Some p1 /\ nth_error vs i2 = Some p2 /\ nth_error vs i3 = Some p3 /\
     let n := cross (vsub p1 p2) (vsub p1 p3) in
     1 / 10000000000 < norm2 n /\ dot n (vsub cen p1) <> 0.
+
+(* the solids of TRC and REC described without their facets *)
+(* TRC: v + t h + w, 0 < t < 1, w normal to h and shorter than the radius at
+   height t, which goes linearly from r1 to r2 *)
+Definition trc_inside (v h : pt) (r1 r2 : R) (p : pt) : Prop :=
+  exists (t : R) (w : pt), 0 < t < 1 /\ dot w h = 0 /\
+    norm2 w < sqr (r1 + (r2 - r1) * t) /\ p = vadd v (vadd (vmul t h) w).
+(* REC (right elliptical cylinder): v + t h + x a1 + y a2, x^2 + y^2 < 1 *)
+Definition rec_inside (v h a1 a2 : pt) (p : pt) : Prop :=
+  exists t x y : R, 0 < t < 1 /\ x * x + y * y < 1 /\
+    p = vadd v (vadd (vmul t h) (vadd (vmul x a1) (vmul y a2))).
